@@ -269,6 +269,8 @@ func dispatch(job Job) *JobRes {
 		out := &JobRes{Viol: r.Viol, Evals: r.Images, Counters: Counter{"concurrent_histories": r.Histories, "concurrent_crash_images": r.Images, "concurrent_images_nontrivial": r.NonTrivial, "stable_acks_overlapping_another_clients_write": r.Overlaps}, Distinct: sortedKeys(r.Keys)}
 		out.Samples = []interface{}{r.Sample}
 		return out
+	case "probe01":
+		return probeFormatCrash()
 	case "probe04":
 		return probeC04()
 	case "hostile":
@@ -464,7 +466,9 @@ func propSpecs() map[string]PropSpec {
 		Plan: withCrash(seqPlan("C12", 30, 600), "C12", 3, 40)})
 	add(PropSpec{ID: "C01", Level: "fault_enumeration", Classes: []string{"crash"},
 		Rule: "each seeded workload (all mutating RPCs, three stability levels, multi-block writes, truncations, big-file removal) is recorded on the crash disk; EVERY prefix cut of its trace, one (thorough: three) lossy image(s) per cut with un-barriered writes lost/reordered, and cuts of sampled recovery runs (depth 2) are recovered by the real MakeNfs; the recovered tree must equal reference state S_j for some lo<=j<=hi, handles preserved, fsck clean, continuation workload in lock-step with S_j; distinct = distinct (recovered tree, on-disk state, lo, hi) with lo<hi (an operation in flight or an unstable suffix)",
-		Plan: withCrash(noJobs, "C01", 8, 150)})
+		Plan: func(tier string, seed uint64) []Job {
+			return append(withCrash(noJobs, "C01", 8, 150)(tier, seed), Job{Engine: "probe01", Profile: "C01", Seed: seed})
+		}})
 	add(PropSpec{ID: "C07", Level: "fault_enumeration", Classes: []string{"crash", "verf"},
 		Rule: "write-heavy workloads over several files mixing UNSTABLE/DATA_SYNC/FILE_SYNC, COMMIT and metadata operations, Unstable option on/off, clean restarts without flush; every prefix cut + lossy cuts recovered: state must be a reference prefix >= everything acknowledged stable (loss only as a suffix); every WRITE/COMMIT reply checked for committed level and verifier (constant per instance, different across instances); distinct as C01",
 		Plan: func(tier string, seed uint64) []Job {
